@@ -85,7 +85,8 @@ fn idx_array(iv: &[Option<u32>], which: usize) -> ArrayRef {
     }
 }
 
-fn kernels_on(ctx: &Ctx, st: &mut Stats, idx: u64, dt: &DataType, col: &[Val], lay: &Layout, other: &[Val]) {
+/// `full` = also run the kernels that do not use the second operand
+fn kernels_on(ctx: &Ctx, st: &mut Stats, idx: u64, dt: &DataType, col: &[Val], lay: &Layout, other: &[Val], full: bool) {
     let Ok(a) = realise(dt, col, lay) else { return };
     let n = col.len();
     let case = || json!({"sub":"kernels","column":col_json(dt, col),"layout":lay.name()});
@@ -94,6 +95,13 @@ fn kernels_on(ctx: &Ctx, st: &mut Stats, idx: u64, dt: &DataType, col: &[Val], l
     let b_other = realise(dt, &other[..n.min(other.len())].iter().cloned().chain(std::iter::repeat_n(other.first().cloned().unwrap_or(Val::Null), n.saturating_sub(other.len()))).collect::<Vec<_>>(), &Layout::compact());
     for m in masks(n) {
         let ma = BooleanArray::from(m.clone());
+        if let (false, Ok(b)) = (full, &b_other) {
+            let bo = extract(b.as_ref());
+            let want: Vec<Val> = (0..n).map(|i| if m[i] == Some(true) { col[i].clone() } else { bo[i].clone() }).collect();
+            ev += 1;
+            expect_rows(st, idx, "zip", dt, catch(|| arrow_select::zip::zip(&ma, &a, b)), &want, &case);
+            continue;
+        }
         let want: Vec<Val> = (0..n).filter(|&i| m[i] == Some(true)).map(|i| col[i].clone()).collect();
         ev += 1;
         expect_rows(st, idx, "filter", dt, catch(|| arrow_select::filter::filter(a.as_ref(), &ma)), &want, &case);
@@ -122,7 +130,7 @@ fn kernels_on(ctx: &Ctx, st: &mut Stats, idx: u64, dt: &DataType, col: &[Val], l
     }
     // ---- take (all index vectors up to the bound, rotating index types)
     let max_iv = ctx.pick(2, 3);
-    for (k, iv) in index_vectors(n, max_iv, !is_union(dt)).into_iter().enumerate() {
+    for (k, iv) in index_vectors(n, max_iv, !is_union(dt)).into_iter().enumerate().filter(|_| full) {
         let ia = idx_array(&iv, k);
         let want: Vec<Val> = iv.iter().map(|x| x.map(|i| col[i as usize].clone()).unwrap_or(Val::Null)).collect();
         ev += 1;
@@ -133,14 +141,14 @@ fn kernels_on(ctx: &Ctx, st: &mut Stats, idx: u64, dt: &DataType, col: &[Val], l
         }
     }
     // ---- slice, shift
-    for o in 0..=n {
+    for o in (0..=n).filter(|_| full) {
         for l in 0..=(n - o) {
             ev += 1;
             let s = a.slice(o, l);
             expect_rows(st, idx, "slice", dt, Ok(Ok(s)), &col[o..o + l], &case);
         }
     }
-    if !is_union(dt) {
+    if !is_union(dt) && full {
         for k in -(n as i64 + 1)..=(n as i64 + 1) {
             let want: Vec<Val> = (0..n as i64).map(|i| { let src = i - k; if src >= 0 && src < n as i64 { col[src as usize].clone() } else { Val::Null } }).collect();
             ev += 1;
@@ -205,15 +213,21 @@ fn kernels_on(ctx: &Ctx, st: &mut Stats, idx: u64, dt: &DataType, col: &[Val], l
             ev += 1;
             expect_rows(st, idx, "merge_n", dt, catch(|| arrow_select::merge::merge_n(&[a.as_ref(), b.as_ref()], &sq)), &want, &case);
         }
-        if n > 0 && m2 > 0 {
-            let (sa, sb) = (Scalar::new(a.slice(0, 1)), Scalar::new(b.slice(m2 - 1, 1)));
-            for len in 0..=3usize {
-                for m in masks(len) {
-                    let want: Vec<Val> = m.iter().map(|x| if *x == Some(true) { col[0].clone() } else { other[m2 - 1].clone() }).collect();
-                    ev += 1;
-                    expect_rows(st, idx, "scalar-zipper", dt, catch(|| arrow_select::zip::ScalarZipper::try_new(&sa, &sb)?.zip(&BooleanArray::from(m.clone()))), &want, &case);
-                    ev += 1;
-                    expect_rows(st, idx, "zip-scalars", dt, catch(|| arrow_select::zip::zip(&BooleanArray::from(m.clone()), &sa, &sb)), &want, &case);
+        // every (row of a, row of b) as the (truthy, falsy) scalar pair - the scalars are 1-row slices, so
+        // they keep the buffers of the whole array (a short view value next to a data buffer, a
+        // dictionary with unreferenced entries ...). All masks of length <= 3 for the (first, last)
+        // pair, of length 2 for the others.
+        for i in 0..n {
+            for j in 0..m2 {
+                let (sa, sb) = (Scalar::new(a.slice(i, 1)), Scalar::new(b.slice(j, 1)));
+                for len in if (i, j) == (0, m2 - 1) { 0..=3usize } else { 2..=2usize } {
+                    for m in masks(len) {
+                        let want: Vec<Val> = m.iter().map(|x| if *x == Some(true) { col[i].clone() } else { other[j].clone() }).collect();
+                        ev += 1;
+                        expect_rows(st, idx, "scalar-zipper", dt, catch(|| arrow_select::zip::ScalarZipper::try_new(&sa, &sb)?.zip(&BooleanArray::from(m.clone()))), &want, &case);
+                        ev += 1;
+                        expect_rows(st, idx, "zip-scalars", dt, catch(|| arrow_select::zip::zip(&BooleanArray::from(m.clone()), &sa, &sb)), &want, &case);
+                    }
                 }
             }
         }
@@ -618,9 +632,15 @@ pub fn run(ctx: &Ctx) -> ! {
     st.merge(vcore::par_for_replayable(ctx, "kernels", cases.len() as u64, 4, |idx, st| {
         let (ti, col, lay) = &cases[idx as usize];
         let dt = &grid[*ti];
-        // second operand: a fixed 2-row column of the same type
-        let other: Vec<Val> = columns(dt, 3, 2, true).into_iter().filter(|c| c.len() == 2).nth(5).unwrap_or_else(|| columns(dt, 3, 2, true).into_iter().rfind(|c| c.len() == 2).unwrap_or_default());
-        kernels_on(ctx, st, idx, dt, col, lay, &other);
+        // second operands: two fixed 2-row columns of the same type, [l1, l0] (two different values, for
+        // view types an out-of-line value followed by an inline one) and [null, l1]
+        let al = vmodel::alphabet(dt, 3);
+        let l0 = al.first().cloned().unwrap_or(Val::Null);
+        let l1 = al.get(1).cloned().unwrap_or(l0.clone());
+        let nul = if matches!(dt, DataType::Union(_, _)) { l0.clone() } else { Val::Null };
+        let other = vec![l1.clone(), l0.clone()];
+        kernels_on(ctx, st, idx, dt, col, lay, &other, true);
+        kernels_on(ctx, st, idx, dt, col, lay, &[nul, l1], false);
         if idx as usize == cases.len() / 2 {
             st.sample("kernels", || json!({"column":col_json(dt, col),"layout":lay.name(),"second_operand":col_json(dt, &other)}));
         }
